@@ -19,6 +19,12 @@ type Val struct {
 	Tup  []Val
 	Fn   *ssa.Function
 	Bltn string // builtin name
+	Ifc  *ifcInfo // for an interface value built here from a concrete value: that value (devirtualisation)
+}
+
+type ifcInfo struct {
+	conc  Val
+	ctype types.Type
 }
 
 type cellKey struct {
